@@ -274,7 +274,9 @@ func (d *domAn) domFacts(f *FA, spec *domSpec) []Fact {
 	var out []Fact
 	add := func(v ssa.Value) {
 		if _, ok := v.Type().Underlying().(*types.Slice); !ok {
-			return
+			if bt, isB := v.Type().Underlying().(*types.Basic); !isB || bt.Info()&types.IsString == 0 {
+				return
+			}
 		}
 		p := valuePath(fn, v)
 		iv, ok := spec.LenDom[p]
